@@ -1,7 +1,8 @@
 """Evaluation of one EVO state in a fresh interpreter that imports the *evolved* Python package
 (LSPVERIF_PYPKG) and reads the evolved model (LSPVERIF_MODEL).  Prints one JSON document.
 
-usage: python -m lspverif.evo_state <base.json> <base_vector_names.txt|-> <out.json> [k]"""
+usage: python -m lspverif.evo_state <base.json> <base_vector_names.txt|-> <out.json> [k] [bisim]
+(bisim: only the C04/C09 product walks)"""
 from __future__ import annotations
 
 import copy
@@ -85,6 +86,11 @@ def main(argv):
     for v in vs:
         add(v)
     out["stats"]["c09_facets"] = st["facets"]
+    if len(argv) > 4 and argv[4] == "bisim":
+        out["stats"]["wall"] = round(time.time() - t0, 1)
+        with open(out_path, "w") as f:
+            json.dump(out, f, default=repr)
+        return 0
     # ---- VSE on the affected region
     roots, changed_enums = affected_roots(base_doc, mm)
     out["stats"]["affected_roots"] = roots[:40]
